@@ -21,6 +21,7 @@ type algoCfg struct {
 	Min, Max       int
 	Smoothing      float64
 	Backoff        float64
+	VegasSteps     int // 0 = default increase / decrease steps | 1 = caller's increase only | 2 = caller's decrease only | 3 = both
 	IncreaseBy     int
 	ProbeMult      int
 	ProbeInterval  int // gradient: -1 disabled
@@ -40,7 +41,7 @@ type algoCfg struct {
 
 func (c algoCfg) String() string {
 	return fmt.Sprintf("%s{initial=%d min=%d max=%d smoothing=%g backoff=%g inc=%d probeMult=%d probeInterval=%d q=%d tol=%g longWindow=%d wrap=%q win=[%d,%d,%d,%d] debug=%v measure=%q ctor=%q windefault=%v}",
-		c.Name, c.Initial, c.Min, c.Max, c.Smoothing, c.Backoff, c.IncreaseBy, c.ProbeMult, c.ProbeInterval, c.QFix, c.Tolerance, c.LongWindow, c.Wrap, c.WinMin, c.WinMax, c.WinSize, c.WinThresh, c.DebugLog, c.Measure, c.Ctor, c.WinDefault)
+		c.Name, c.Initial, c.Min, c.Max, c.Smoothing, c.Backoff, c.IncreaseBy, c.ProbeMult, c.ProbeInterval, c.QFix, c.Tolerance, c.LongWindow, c.Wrap, c.WinMin, c.WinMax, c.WinSize, c.WinThresh, c.DebugLog, c.Measure, c.Ctor, c.WinDefault) + map[int]string{0: "", 1: " own-increase", 2: " own-decrease", 3: " own-steps"}[c.VegasSteps]
 }
 
 type algo struct {
@@ -201,7 +202,14 @@ func buildAlgo(c algoCfg, withRegistry bool) (*algo, error) {
 		case "single":
 			meas = &measurements.SingleMeasurement{}
 		}
-		l := limit.NewVegasLimitWithRegistry(nm("vegas"), c.Initial, meas, c.Max, c.Smoothing, nil, nil, nil, nil, nil, c.ProbeMult, lg, reg)
+		var incF, decF func(float64) float64
+		if c.VegasSteps&1 != 0 {
+			incF = func(l float64) float64 { return l + 2 }
+		}
+		if c.VegasSteps&2 != 0 {
+			decF = func(l float64) float64 { return l - 2 }
+		}
+		l := limit.NewVegasLimitWithRegistry(nm("vegas"), c.Initial, meas, c.Max, c.Smoothing, nil, nil, nil, incF, decF, c.ProbeMult, lg, reg)
 		switch c.Ctor {
 		case "initial-0":
 			l = limit.NewVegasLimitWithRegistry(nm("vegas"), 0, meas, c.Max, c.Smoothing, nil, nil, nil, nil, nil, c.ProbeMult, lg, reg)
